@@ -4,6 +4,11 @@
 // are cut VERBATIM from /repo's current constraint.rs and re-hosted on a local copy of the Constraint struct whose TokenParser is a
 // stub (calls logged, answers symbolic).  Real: StepResult / Branch / Splice (toktrie), CommitResult, StopReason, SimpleVob.
 use super::*;
+// explicit imports: the harness must not depend on which names the real module happens to import
+#[allow(unused_imports)]
+use crate::api::StopReason;
+#[allow(unused_imports)]
+use ::toktrie::{StepResult, TokenId};
 use ::toktrie::SimpleVob;
 
 #[derive(Debug, Clone, Copy, PartialEq)]
